@@ -562,6 +562,45 @@ def genesis_grid():
              f"start ctx={ctx_id(0xC1B, 0)} cons={C1}", "endblock dt=5000000000", "endblock dt=5000000000",
              "prep", "export", "validate", "jsonrt", "reimport"]
     out.append(("grid:genesis:restart", base + cont))
+    # shapes of state at the export point that the restarted chain must get right (fifteenth round of seeded changes):
+    # an owner whose withdrawal address is the deposit custody account, with an earning of its provider at the export
+    # point; a binding disabled — and re-priced while disabled — at the export point, enabled on the new chain without and
+    # with a top-up; a refunded binding enabled again on the new chain; a provider with two bindings
+    ops = [genesis(), f"fund acct={O1} amt=1000000", f"fund acct={C1} amt=100000",
+           f"define name=svc author={O1} schema=ok", f"define name=a-b author={O1} schema=ok",
+           f"bind svc=svc prov={P1} owner={O1} dep=10000 price=5stake promT=- promV=- qos=1",
+           f"bind svc=a-b prov={P1} owner={O1} dep=10000 price=4stake promT=- promV=- qos=1",
+           f"bind svc=svc prov={P2} owner={O1} dep=6000 price=30stake promT=- promV=- qos=1",
+           f"bind svc=a-b prov={P2} owner={O1} dep=6000 price=3stake promT=- promV=- qos=1",
+           f"setwd owner={O1} addr={DEPOSIT}",
+           f"call tx={tx(0xC1D)} idx=0 svc=svc provs={P1},{P2} cons={C1} cap=100 timeout=3 super=0 rep=0 freq=0 total=0 input=ok",
+           "endblock dt=5000000000",
+           f"respond req={req_id(0xC1D, 1, 1, 0)} prov={P1} code=200 out=valid",
+           f"disable svc=svc prov={P2} owner={O1}",
+           f"update svc=svc prov={P2} owner={O1} dep=- price=50stake promT=- promV=- qos=0",
+           f"disable svc=a-b prov={P2} owner={O1}",
+           "endblock dt=1728000000000000",
+           f"refund svc=a-b prov={P2} owner={O1}",
+           "endblock dt=5000000000",
+           "restart",
+           f"enable svc=svc prov={P2} owner={O1} dep=-",          # 6000 < 50 x 200: must be rejected on the new chain too
+           f"enable svc=a-b prov={P2} owner={O1} dep=-",          # refunded: nothing left
+           f"enable svc=svc prov={P2} owner={O1} dep=4000",
+           f"enable svc=a-b prov={P2} owner={O1} dep=6000",
+           f"call tx={tx(0xC1E)} idx=0 svc=svc provs={P1},{P2} cons={C1} cap=100 timeout=2 super=0 rep=0 freq=0 total=0 input=ok",
+           f"call tx={tx(0xC1E)} idx=1 svc=a-b provs={P1},{P2} cons={C1} cap=100 timeout=2 super=0 rep=0 freq=0 total=0 input=ok",
+           "endblock dt=5000000000",
+           f"respond req={req_id(0xC1E, 1, 4, 0, 0)} prov={P1} code=200 out=valid",
+           f"respond req={req_id(0xC1E, 1, 4, 1, 1)} prov={P2} code=200 out=malformed",
+           "endblock dt=5000000000", "endblock dt=5000000000", "endblock dt=5000000000",
+           f"setwd owner={O1} addr={O1}",
+           f"withdraw owner={O1} prov=-",
+           f"disable svc=svc prov={P1} owner={O1}", f"disable svc=a-b prov={P1} owner={O1}",
+           "endblock dt=1728000000000000",
+           f"refund svc=svc prov={P1} owner={O1}", f"refund svc=a-b prov={P1} owner={O1}",
+           "restart", "endblock dt=5000000000",
+           "prep", "export", "validate", "jsonrt", "reimport"]
+    out.append(("grid:genesis:restart-shapes", ops))
     return out
 
 
